@@ -7,6 +7,7 @@ import (
 	"bytes"
 	"context"
 	"fmt"
+	"reflect"
 	"sort"
 	"strings"
 
@@ -414,8 +415,8 @@ func Run(c *fw.Case) {
 
 			// the block index built from it, as pipeline.BuildModuleExecutors does (once per expression and assignment)
 			if first {
-				pre := index.NewBlockIndex(pe.expr, "idx", bm)
-				abs := index.NewBlockIndex(pe.expr, "idx", nil)
+				pre := newBlockIndex(pe.expr, "idx", bm)
+				abs := newBlockIndex(pe.expr, "idx", nil)
 				if !pre.Precomputed() || abs.Precomputed() {
 					c.Violation("C15a/blockindex/precomputed-flag", "Precomputed() wrong", describe(pe, a))
 					return
@@ -531,4 +532,19 @@ func describe(pe *parsedExpr, a *assignment) map[string]any {
 	}
 	out["keys_per_block"] = blocks
 	return out
+}
+
+// newBlockIndex calls index.NewBlockIndex through reflection, so that the harness still builds when a change to the
+// repository adds trailing parameters to that constructor (they are passed their zero value: "module starts at block 0").
+func newBlockIndex(expr sqe.Expression, module string, bm *roaring64.Bitmap) *index.BlockIndex {
+	f := reflect.ValueOf(index.NewBlockIndex)
+	t := f.Type()
+	args := []reflect.Value{reflect.ValueOf(expr), reflect.ValueOf(module), reflect.ValueOf(bm)}
+	if expr == nil {
+		args[0] = reflect.Zero(t.In(0))
+	}
+	for i := len(args); i < t.NumIn(); i++ {
+		args = append(args, reflect.Zero(t.In(i)))
+	}
+	return f.Call(args)[0].Interface().(*index.BlockIndex)
 }
